@@ -1,7 +1,8 @@
 ---------------------------- MODULE GenReprovider ----------------------------
 (* Phase G: every (key stream, configuration) case run to completion by the spec; the expected
-   router batches and throughput-callback calls are printed for replay on provider.New.    *)
+   router batches and throughput-callback calls of every pass are printed for replay on provider.New.    *)
 EXTENDS Reprovider
-Emit == pc # "done" \/ PrintT(<<"BEHAVIOUR", ToJson([stream |-> input, cfg |-> cfg,
-                                   batches |-> batches, cb |-> cbCalls])>>)
+\* passes[p] = [stream, batches, cb] of pass p; plan[p] says how pass p+1 gets its stream
+Emit == ~AllDone \/ PrintT(<<"BEHAVIOUR", ToJson([cfg |-> cfg, plan |-> plan,
+                                   passes |-> Append(hist, [stream |-> input, batches |-> batches, cb |-> cbCalls])])>>)
 =============================================================================
